@@ -44,6 +44,18 @@ def run(R):
     for alg in ["sha256", "sha512", "sha1", "ripemd160", "sha3_256", "keccak512"]:
         n = R.rng.randrange(40000, 65537) if thorough else R.rng.randrange(2000, 4097)
         add({"alg": alg}, vlib.prng_bytes(R.seed, "c01long/" + alg, n), (alg, n))
+    # very long messages: what distinguishes them is the length field of the padding; the processed-bytes count is preset through the hook
+    # next to the points where the bit length crosses a word (a 512 MiB message cannot be recomputed by TLC)
+    for alg in hc.MD:
+        b, lb = hc.MD[alg][0], hc.MD[alg][1]
+        offs = [(1 << 29) - b, 1 << 29, (1 << 32) - 1, (1 << 61) - 2 * b] + ([(1 << 64) - 1, (1 << 125) - 3 * b] if lb == 16 else [])
+        for oi, off in enumerate(offs if thorough else offs[R.seed % 2::2]):
+            n = (0, 1, b - lb, b + 1)[oi % 4]
+            h = {"id": R.next_id(), "cls": "hash", "alg": alg,
+                 "ev": [{"op": "new"}, {"op": "set_length", "x": 1, "off": list(off.to_bytes(16, "little"))}, {"op": "update", "x": 1, "data": vlib.prng_bytes(R.seed, "c01off/" + alg, n)},
+                        {"op": "finalize", "x": 1}]}
+            hs.append(h)
+            R.count((alg, "preset-length", off.bit_length(), n))
     # BLAKE2: (outlen, keylen) grid
     for alg in ["blake2b", "blake2s"]:
         b, mo, mk = hc.BLAKE[alg]
